@@ -29,7 +29,8 @@ VARIANTS = (
 def schur_cases(draw, tier):
     n = draw(st.integers(1, 6 if tier == "quick" else 7))
     kind = draw(st.sampled_from(["generic", "generic", "hermitian", "triangular", "normal", "lowrank", "int",
-                                 "lower_triangular", "hessenberg", "banded", "sparse_units", "block_diag", "unitary", "unitary"]))
+                                 "lower_triangular", "hessenberg", "banded", "sparse_units", "block_diag", "unitary", "unitary",
+                                 "badly_scaled"]))
     if kind == "generic":
         A = draw(gen.qarray(n, n, "generic"))[0] / 4.0
     elif kind == "int":
@@ -60,6 +61,12 @@ def schur_cases(draw, tier):
             A[c:, :c] = 0.0
             if draw(st.booleans()):
                 A[:c, c:] = 0.0
+    elif kind == "badly_scaled":
+        # A = D G D^-1 with D = diag(d^0, d^1, ...): rows and columns of very different norms (what balancing is for)
+        G = draw(gen.qarray(n, n, "generic"))[0] / 4.0
+        d = draw(st.sampled_from([2.0, 8.0, 10.0, 64.0]))
+        f = d ** np.arange(n, dtype=float)
+        A = G * (f[:, None] / f[None, :])[..., None]
     elif kind == "unitary":
         # unitary matrices (all eigenvalues on one circle) are stationary points of the unshifted QR iteration: dense
         # unitary, signed permutation times basis units, reflections; one common scale
